@@ -289,6 +289,26 @@ class CustomFencedCode(block.FencedCode):
         )
 
 
+class CustomFootnoteDef(footnote.FootnoteDef):
+    """
+    FootnoteDef whose container prefix never contains a literal tab.
+
+    Marko matches container prefixes against the tab-expanded line. The stock FootnoteDef keeps
+    the matched text, including a tab after the label ("[^1]:<TAB>text"), as its prefix, which
+    then never matches; the parser stops consuming input and loops forever.
+    """
+
+    def __init__(self, match: re.Match[str]) -> None:
+        super().__init__(match)
+        self._prefix: str = re.escape(match.group().expandtabs(4))
+
+    @override
+    @classmethod
+    def get_type(cls, snake_case: bool = False) -> str:
+        # Ensure renderer dispatch uses "footnote_def" not "custom_footnote_def".
+        return "footnote_def" if snake_case else "FootnoteDef"
+
+
 class CustomParser(Parser):
     def __init__(self) -> None:
         super().__init__()
@@ -837,6 +857,8 @@ def flowmark_markdown(
             # Add GFM footnote support.
             footnote_ext = footnote.make_extension()
             for e in footnote_ext.elements:
+                if e is footnote.FootnoteDef:
+                    e = CustomFootnoteDef
                 assert (
                     e not in custom_parser.block_elements and e not in custom_parser.inline_elements
                 )
